@@ -433,7 +433,8 @@ def run_tlc(max_lines, max_depth, simulate=None, export=False, seed=None, depth=
     behs = []
     try:
         res = tlc.run("MC_PyAssist", cfg, simulate=simulate, depth=depth, seed=seed,
-                      on_tagged=lambda t, v: behs.append(v), collect_tags=False, timeout=3000)
+                      on_tagged=lambda t, v: behs.append(v), collect_tags=False, timeout=3000,
+                      java_opts=("-Xmx4g",))
     finally:
         os.unlink(cfg)
     return res, behs
